@@ -223,7 +223,7 @@ func generate(src, dst string, imports []string) (err error, panicked string, hu
 	select {
 	case r := <-ch:
 		return r.err, r.p, false
-	case <-time.After(20 * time.Second):
+	case <-time.After(120 * time.Second):
 		return nil, "", true
 	}
 }
